@@ -191,6 +191,57 @@ def specUnflatten (sep : Char) (inplace : Bool) (t : Entry) : Entry × Out :=
   | (t', .err e) => if inplace then (t', .err e) else (t, .err e)
   | (t', _) => if inplace then (t', .ok) else (t, .res [t'])
 
+/-! ### select -/
+
+/-- the dict already selected under `k` (nothing yet: the empty dict) -/
+def curOf (k : String) (ok : Kids) : Kids :=
+  match dget k ok with
+  | some (.node c) => c
+  | _ => []
+
+/-- `select` on plain dicts, one key: the part of `d` along `p` is merged into `out` — `out[p] = d[p]` with the
+intermediate dicts created on the way. A key whose ancestor `pre ++ [k]` is itself listed (`K`) does not narrow that
+ancestor: it only makes sure the ancestor is present (and, when strict, that `d[p]` exists). A missing key is an error
+when strict and is skipped otherwise (the dicts on the way to it stay, possibly empty); a key running through a
+non-dict is an error. `pre`: the path of `d` / `out` below the root. -/
+def selIns (K : List Path) (strict : Bool) : Path → Path → Kids → Kids → Except Err Kids
+  | _, [], _, _ => .error .key
+  | _, [k], dk, ok =>
+    match dget k dk with
+    | none => if strict then .error .key else .ok ok
+    | some v => .ok (dset k v ok)
+  | pre, k :: k2 :: rest, dk, ok =>
+    match dget k dk with
+    | none => if strict then .error .key else .ok ok
+    | some v =>
+      if K.contains (pre ++ [k]) then
+        if strict && (lookup (k2 :: rest) v).isNone then .error .key
+        else .ok (if (dget k ok).isSome then ok else dset k v ok)
+      else
+        match v with
+        | .leaf .. => .error .key
+        | .node dsub =>
+          match selIns K strict (pre ++ [k]) (k2 :: rest) dsub (curOf k ok) with
+          | .error e => .error e
+          | .ok c => .ok (dset k (.node c) ok)
+
+/-- `out = {}; for p in keys: merge d along p into out` -/
+def selFold (K : List Path) (strict : Bool) (pre : Path) (dk : Kids) : List Path → Kids → Except Err Kids
+  | [], ok => .ok ok
+  | p :: ps, ok =>
+    match selIns K strict pre p dk ok with
+    | .error e => .error e
+    | .ok ok' => selFold K strict pre dk ps ok'
+
+/-- `select(*keys, strict, inplace)` on plain dicts; nothing happens when a key is refused -/
+def specSelect (keys : List Path) (strict inplace : Bool) (t : Entry) : Entry × Out :=
+  match t with
+  | .leaf .. => (t, .err .key)
+  | .node kids =>
+    match selFold keys strict [] kids keys [] with
+    | .error e => (t, .err e)
+    | .ok r => if inplace then (.node r, .ok) else (t, .res [.node r])
+
 /-! ### split_keys -/
 
 /-- one key set on plain dicts: `v = last.pop(p[, None]); out[p] = v` key by key (a missing key is skipped when not
@@ -225,15 +276,11 @@ def specSplit (sets : List (List Path)) (inplace strict : Bool) (t : Entry) : En
 
 /-! ### the reference step -/
 
-/-- the operations whose transcription is proved to refine the nested-dict replay (see Props/C04.lean);
-the remaining one (select) is tied to the
-code by the correspondence check and judged by the Python dict oracle only. -/
+/-- the operations whose transcription is proved to refine the nested-dict replay (see Props/C04.lean): all of them -/
 def Op.core : Op → Bool
-  | .set .. | .del .. | .pop .. | .rename .. | .setdefault .. | .clear | .empty | .unflatten .. | .exclude .. | .update .. => true
-  | .flatten .. | .split .. => true
-  | _ => false
+  | _ => true
 
-/-- replay of one operation on the plain nested dict (core operations) -/
+/-- replay of one operation on the plain nested dict -/
 def dstep (t : Entry) : Op → Entry × Out
   | .set p v => specSet p v t
   | .del p => specDel p t
@@ -253,7 +300,7 @@ def dstep (t : Entry) : Op → Entry × Out
     if (flatNames sep t).Nodup then (if inplace then (.node (flatKids sep t), .ok) else (t, .res [.node (flatKids sep t)]))
     else (t, .err .key)
   | .split sets inplace strict => specSplit sets inplace strict t
-  | _ => (t, .err .runtime)
+  | .select keys strict inplace => specSelect keys strict inplace t
 
 def drun (t : Entry) : List Op → Entry
   | [] => t
@@ -274,7 +321,7 @@ def InScope (t : Entry) : Op → Prop
   | .flatten .. => True
   -- a key through a NonTensorData is outside the model (as for `pop` with a default)
   | .split sets _ strict => strict = true ∨ ∀ ks ∈ sets, ∀ p ∈ ks, throughNt p t = false
-  | _ => False
+  | .select .. => True
 
 def ScopeAll (t : Entry) : List Op → Prop
   | [] => True
